@@ -264,14 +264,20 @@ class World:
                 ent.cancel_time = m.time
             self._emit(sub, n0)
             follow = True
-        elif k == "T":
+        elif k in ("T", "J"):
+            # T: one clock step (what the runner does); J: the clock set k steps ahead in one call (Market._set_time)
             sub = Sub("tick", op)
             self._snap(sub)
             n0 = len(self.lg.got)
             try:
-                for c in self.comps:
-                    c._update_time(self.P0)
-                m._update_time(self.P0)
+                if k == "T":
+                    for c in self.comps:
+                        c._update_time(self.P0)
+                    m._update_time(self.P0)
+                else:
+                    for c in self.comps:
+                        c._set_time(c.time + op[1], self.P0)
+                    m._set_time(m.time + op[1], self.P0)
             except Exception as e:  # noqa
                 sub.exc = e
             live = self.live_ids()
